@@ -19,6 +19,7 @@ import (
 	"fmt"
 	"math/rand"
 	"reflect"
+	"strings"
 
 	"verif/harness/internal/eng"
 	"verif/harness/internal/hx"
@@ -51,11 +52,12 @@ type c06Obs struct {
 	Test   eng.StepObs   `json:"test"`
 	After  *eng.StepObs  `json:"after,omitempty"`
 	Out    string        `json:"out,omitempty"` // helm template: size of the rendered output
+	Rich   *c06RichObs   `json:"rich,omitempty"` // wide / template cases: the ordered event log for the richer model
 }
 
 func (*c06) ID() string { return "C06" }
 func (*c06) CoqImport() string {
-	return "From Helm Require Import Engine.Types Engine.Eff Engine.Ops Engine.Cluster Engine.Seq Run.RunEng.\nFrom Helm Require Import Run.RunC06."
+	return "From Helm Require Import Engine.Types Engine.Eff Engine.Ops Engine.Cluster Engine.Seq Run.RunEng.\nFrom Helm Require Import Engine.DryOps Run.RunC06Rich Run.RunC06."
 }
 
 func (*c06) Rule() string {
@@ -87,6 +89,22 @@ func c06IsDrySpelling(kind string, f eng.Flags) bool {
 	return false
 }
 
+// c06TalksToServer: the DryRunOption (for helm template: the --dry-run value) asks for the
+// server, or the run is not a dry run at all.
+func c06TalksToServer(c c06Case) bool {
+	opt := c.Op.Flags.DryRunOption
+	dry := c06IsDrySpelling(c.Op.Kind, c.Op.Flags)
+	if c.Template != nil {
+		opt, dry = "", true
+		for _, a := range c.Template.Args {
+			if strings.HasPrefix(a, "--dry-run=") {
+				opt = strings.TrimPrefix(a, "--dry-run=")
+			}
+		}
+	}
+	return !dry || opt == "server" || opt == "none" || opt == "false"
+}
+
 func c06InModel(c c06Case) bool {
 	if c.Wide != nil || c.Template != nil {
 		return false
@@ -111,9 +129,9 @@ func (*c06) Execute(ci any) any {
 	o.Before = c06State{Ledger: c06Ledger(r.Inner), Objs: r.Srv.Snapshot()}
 	switch {
 	case c.Template != nil:
-		o.Test, o.Out = c06RunTemplate(r, c.Op, c.Wide, c.Template)
+		o.Test, o.Out, o.Rich = c06RunTemplate(r, c.Op, c.Wide, c.Template)
 	case c.Wide != nil:
-		o.Test = c06RunWide(r, c.Op, c.Wide)
+		o.Test, o.Rich = c06RunWide(r, c.Op, c.Wide)
 	default:
 		o.Test = r.RunOp(c.Op)
 	}
@@ -163,7 +181,18 @@ func (*c06) Oracle(ci, oi any) []hx.Violation {
 		}
 	}
 	if clientOnly && t.Reqs != 0 {
-		add("C06:client-only-request", fmt.Sprintf("%s sent %d request(s) to the API server", what, t.Reqs))
+		// Client-only rendering is "helm template without --validate, --dry-run=client".  With a
+		// --dry-run value that asks for the server (server; the code reads none and false the same
+		// way) a `lookup` in a template is answered by the cluster when the configuration can reach
+		// it: at most two GETs per lookup (the resource list of the group version, the object).
+		// Everything else is still a violation.
+		allowed := 0
+		if c06TalksToServer(c) && c.Wide != nil && c.Wide.Getter {
+			allowed = 2 * c.Wide.Lookups
+		}
+		if t.Reqs > allowed {
+			add("C06:client-only-request", fmt.Sprintf("%s sent %d request(s) to the API server (lookups may account for %d)", what, t.Reqs, allowed))
+		}
 	}
 	return vs
 }
@@ -173,7 +202,7 @@ func (*c06) Oracle(ci, oi any) []hx.Violation {
 func (*c06) CoqCase(ci, oi any) string {
 	c, o := ci.(c06Case), oi.(c06Obs)
 	if !c06InModel(c) {
-		return "mkC06 false [] (mkCase [] [] [])"
+		return "mkC06 false [] (mkCase [] [] []) " + c06CoqRich(c, o)
 	}
 	h := eng.History{Backend: c.Backend, Init: c.Init}
 	var obs eng.Obs
@@ -194,7 +223,7 @@ func (*c06) CoqCase(ci, oi any) string {
 	if c.Op.Kind == "rollback" || c.Op.Kind == "uninstall" {
 		opt = "" // these actions have the boolean only
 	}
-	return fmt.Sprintf("mkC06 true [mkSp %d %s %s]\n (%s)", idx, hx.CoqBool(c.Op.Flags.DryRun), hx.CoqStr(opt), eng.CoqCase(h, obs))
+	return fmt.Sprintf("mkC06 true [mkSp %d %s %s]\n (%s) None", idx, hx.CoqBool(c.Op.Flags.DryRun), hx.CoqStr(opt), eng.CoqCase(h, obs))
 }
 
 func c06SpellName(f eng.Flags) string {
@@ -213,9 +242,22 @@ func (*c06) Class(ci, _ any) string {
 	dom := "model"
 	if !c06InModel(c) {
 		dom = "oracle-only"
+		if c06RichInDomain(c) {
+			dom = "rich-model"
+			if w := c.Wide; w != nil {
+				for _, x := range []struct {
+					on bool
+					n  string
+				}{{w.CRDs, "crds"}, {w.CreateNamespace, "ns"}, {w.PostRender, "post"}, {w.Lookups > 0, "lookup"}, {w.Getter, "getter"}, {w.NilCaps, "nilcaps"}} {
+					if x.on {
+						dom += "+" + x.n
+					}
+				}
+			}
+		}
 	}
 	if c.Template != nil {
-		return "helm-template/" + c.Shape
+		return "helm-template/" + c.Shape + "/" + dom
 	}
 	k := c.Op.Kind
 	if c.Op.Flags.ClientOnly {
